@@ -4,7 +4,7 @@ import random
 
 from harness import probes, progs_alias, progs_calls
 from harness.common import Check
-from harness.e1corpus import Item, describe, run_items
+from harness.e1corpus import Item, describe, run_items, release
 
 from .c01 import judge
 
@@ -71,6 +71,8 @@ def run(chk: Check, tier: str):
     items += [it for it in probes.c01_probes() if it.key in ("probe:static-call-with-value", "probe:static-tstore")]
     kinds = {}
     for i in range(0, len(items), 100):
+        if i:
+            release(items[i - 100 : i])
         outs = run_items(items[i : i + 100], chk)
         judge(chk, outs)
         for o in outs:
